@@ -482,11 +482,15 @@ func master(args []string) {
 		classes = append(classes, c)
 	}
 	sort.Strings(classes)
-	os.MkdirAll(filepath.Join(*verifDir, "replays"), 0755)
+	replayDir := filepath.Join(*verifDir, "replays")
+	if d := os.Getenv("VERIF_REPLAY_DIR"); d != "" {
+		replayDir = d
+	}
+	os.MkdirAll(replayDir, 0755)
 	for _, cl := range classes {
 		v := byClass[cl]
 		if strings.HasPrefix(cl, "C12/race") {
-			dst := filepath.Join(*verifDir, "replays", filepath.Base(v.Replay))
+			dst := filepath.Join(replayDir, filepath.Base(v.Replay))
 			copyFile(v.Replay, dst)
 			fmt.Printf("violation class %s (%d occurrences)\n%s\n", cl, v.Count, v.Detail)
 			fmt.Printf("VIOLATION property=%s replay=%s\n", p.ID, dst)
@@ -494,7 +498,7 @@ func master(args []string) {
 			exitCode = 1
 			continue
 		}
-		dst := filepath.Join(*verifDir, "replays", filepath.Base(v.Replay))
+		dst := filepath.Join(replayDir, filepath.Base(v.Replay))
 		if strings.HasPrefix(v.Replay, filepath.Join(*verifDir, "findings")) {
 			dst = v.Replay
 		} else {
@@ -597,8 +601,12 @@ func master(args []string) {
 		"violations": nViol,
 	}
 	b, _ := json.MarshalIndent(ev, "", " ")
-	os.MkdirAll(filepath.Join(*verifDir, "evidence"), 0755)
-	if err := os.WriteFile(filepath.Join(*verifDir, "evidence", p.ID+".json"), b, 0644); err != nil {
+	evDir := filepath.Join(*verifDir, "evidence")
+	if d := os.Getenv("VERIF_EVIDENCE_DIR"); d != "" {
+		evDir = d // (mutant runs of the sensitivity self-test must not overwrite the real evidence)
+	}
+	os.MkdirAll(evDir, 0755)
+	if err := os.WriteFile(filepath.Join(evDir, p.ID+".json"), b, 0644); err != nil {
 		fatal(err)
 	}
 	fmt.Printf("%s %s seed=%d: %d trials, %d simulated runs, %d distinct non-trivial cases, %d distinct traces, %.1fs, violations=%d exit=%d\n",
